@@ -188,7 +188,8 @@ static int run_small(std::istringstream& hs, const std::string& header)
 {
     std::size_t ns; std::string pos; hs >> ns >> pos;
     auto* l = new (pos == "high" ? static_cast<void*>(g.high) : static_cast<void*>(g.low)) small_free_memory_list(ns);
-    std::printf("%s = ok | ns=%zu dbl=%d asserts=%d ptr=%d | %s\n", header.c_str(), l->node_size(), FOONATHAN_MEMORY_DEBUG_DOUBLE_DEALLOC_CHECK, FOONATHAN_MEMORY_DEBUG_ASSERT, FOONATHAN_MEMORY_DEBUG_POINTER_CHECK, dump_small(*l).c_str());
+    std::printf("%s = ok | ns=%zu dbl=%d asserts=%d ptr=%d base=%ld | %s\n", header.c_str(), l->node_size(), FOONATHAN_MEMORY_DEBUG_DOUBLE_DEALLOC_CHECK, FOONATHAN_MEMORY_DEBUG_ASSERT, FOONATHAN_MEMORY_DEBUG_POINTER_CHECK,
+                long(reinterpret_cast<char*>(&l->base_) - g.mem), dump_small(*l).c_str());
     std::vector<char*> live, freed; std::string line;
     while (std::getline(std::cin, line))
     {
